@@ -283,6 +283,13 @@ func c13Tiny(r *Run, st *c13Stats) error {
 			inputs = append(inputs, first+tl)
 		}
 	}
+	// every near-miss line that needs no prelude, as the whole file (nothing before it: look-ahead
+	// code that scans from the start of the token list behaves differently there)
+	for _, l := range gen.NearMissLines {
+		if !strings.Contains(l, "nm") {
+			inputs = append(inputs, l+"\n", "var a int\n"+l+"\n")
+		}
+	}
 	nTiny := len(inputs)
 	inputs = append(inputs, gen.OperandMatrix()...)
 	if r.Tier == "thorough" {
